@@ -106,7 +106,8 @@ def run(acc, eng, seqs, k, cname, maxcd, queries=None):
 
 # ------------------------------------------------------------------ TCRdist part
 CDR3S = ("CASSLGQAYEQYF", "CASSLGQAYEQFF", "CASSLGAYEQYF", "CASRPTGGDTQYF", "CAVRDSNYQLIW", "CAVRDSNYKLIW", "CAVDSNYQLIW",
-         "CAKSLGQAYEQYF", "CATSLGQAYEQLF")     # the last two differ from the first only inside the default trim (positions 2 and -2)
+         "CAKSLGQAYEQYF", "CATSLGQAYEQLF",     # these two differ from the first only inside the default trim (positions 2 and -2)
+         "CAWSF", "CASSF", "CASSSF", "CAWSSF")   # 9..12: CDR3s no longer than the default trim (3 + 2): trimmed to '' / one or two residues
 BV = ("TRBV6-1*01", "TRBV9*01", "TRBV20-1*01")
 AV = ("TRAV1-1*01", "TRAV12-2*01", "TRAV26-1*01")
 
@@ -158,6 +159,12 @@ def spaces(tier):
                     continue   # thinning of the larger tables by a fixed residue class (stated in bounds)
                 yield ("tcr", tuple(R[r] for r in rows))
 
+    def gen_tcr_short():
+        R = [(0, c3b, 0, 4) for c3b in (9, 10, 11, 12)] + [(1, 9, 0, 4)]
+        for n in (2, 3):
+            for rows in itertools.combinations_with_replacement(range(len(R)), n):
+                yield ("tcr", tuple(R[r] for r in rows))
+
     def gen_hist():
         depth = 2 if q else 3
         for kind in ("SymdelDB", "LookupDB"):
@@ -186,6 +193,7 @@ def spaces(tier):
         Space("custom-distance-universes", gen_uni, "U(AC,5|7), U(ACD,4|5) as one list x 7 custom distances x max_edits in 1..2 x 8 max_custom_distance values x engines (hash_based/LookupDB k=1 on smaller universes)", per_case=True),
         Space("kdtree-radius-boundary-and-large-table", gen_boundary, "x^k.C vs y^k.C families (composition distance exactly sqrt(2)*k) for k = 1..12 on kdtree with callable distances; a 40-row TCR table (> 1000 candidate pairs) with max_tcrdist placed on occurring distance values", per_case=True),
         Space("custom-distance-all-lists", gen_lists, "Lists(U(AC,2),3) x 7 custom distances x max_edits in 1..2 x 8 max_custom_distance x 4 self engines + 3 two-collection engines (query = reversed list)"),
+        Space("tcrdist-short-cdr3", gen_tcr_short, "all 2..3-row tables over beta CDR3s of 5..6 residues (trimmed to '' or 1..2 residues by the default trim) x chain x trimming x radii"),
         Space("tcrdist-tables", gen_tcr, "all multisets of 2 rows (and a fixed residue class of the 3[,4]-row multisets) over a row alphabet of beta/alpha V alleles x CDR3s; chain x edit_on_trimmed x max_edits in 1..2 x max_tcrdist in {0,12,24,1000}; shifted index", shards=64),
         Space("index-object-histories", gen_hist, "every sequence of 1..2 (quick) / 1..3 (thorough) look-ups with distance in {default, hamming, 4 callables} x max_custom_distance in {inf, 1} on one live SymdelDB / LookupDB (2 references x 2 query lists), each answer compared with the reference", shards=32),
         Space("tcrdist-kwargs-histories", gen_tcr_hist, "every sequence of 1..2 (quick) / 1..3 (thorough) nearest_neighbor_tcrdist calls with tcrdist_kwargs in {none, dist_weight=1, ntrim=2+ctrim=1, gap_penalty=4} on 2 tables x chain in {beta, both}; caller's dict unchanged"),
